@@ -152,6 +152,23 @@ def _wrap(rnd, head, toks, width=None):
     return lines
 
 
+COMMENTS = ["\\ a comment between constraints", "\\ note: the next rows are tight", "\\ c99: x + y >= 2", "\\End", "\\ Bounds: none here",
+            "\\ Subject To", "\\ 1/0 : inf", "\\", "\\\\ double \\ backslash : colon"]
+
+
+def _sprinkle(rnd, lines):
+    """comments are immaterial: whole-line comments between lines and trailing comments at line ends (also after nameless rows)"""
+    out = []
+    for ln in lines:
+        t = rnd.random()
+        if t < 0.04:
+            out.append(rnd.choice(COMMENTS))
+        if 0.04 <= t < 0.09 and ln.strip():
+            ln = ln + rnd.choice(["  ", " ", ""]) + rnd.choice(COMMENTS)
+        out.append(ln)
+    return out
+
+
 def lp_text(m, rnd, names=True, allnamed=False):
     """render model m (well-formed, every column used in obj or a row, no empty rows) as LP-format text"""
     cn = {c: c.name for c in m.cols}
@@ -258,6 +275,8 @@ def lp_text(m, rnd, names=True, allnamed=False):
         out.append(kw(rnd, "Integer", "Integer", "Int"))
         out += _wrap(rnd, " ", ints, rnd.choice([30, 200]))
     out.append(kw(rnd, "End"))
+    if rnd.random() < 0.5:
+        out = _sprinkle(rnd, out)
     txt = "\n".join(out) + ("\n" if rnd.random() < 0.9 else "")
     return txt, expected
 
